@@ -7,9 +7,12 @@ CFG = {
         theorems=['Dlis.C05.decode_attr_fidelity', 'Dlis.C05.decodeVal_encVal', 'Dlis.C05.values_fidelity',
                   'Dlis.C05.assigned_held_exactly', 'Dlis.C05.assigned_held_leafwise', 'Dlis.C05.numeric_value_kept',
                   'Dlis.C05.int_as_double_exact', 'Dlis.C05.status_value_kept', 'Dlis.C05.dtime_value_kept',
-                  'Dlis.C05.writer_gets_held_values', 'Dlis.C05.unassigned_is_absent',
+                  'Dlis.C05.writer_gets_held_values', 'Dlis.C05.unassigned_is_absent', 'Dlis.C05.assigned_dimension_kept',
+                  'Dlis.C05.derived_dimension_is_shape', 'Dlis.C05.parameter_dimension_kept', 'Dlis.C05.channel_from_data',
+                  'Dlis.C05.channel_defaults_keep', 'Dlis.C05.field_name_default',
                   'Dlis.C04.parseEflr_setBody', 'Dlis.Obligations.attrs_eq', 'Dlis.Obligations.enums_eq',
-                  'Dlis.Obligations.convs_eq', 'Dlis.Obligations.sets_eq', 'Dlis.Obligations.genericTypes_eq'],
+                  'Dlis.Obligations.convs_eq', 'Dlis.Obligations.codeClasses_eq', 'Dlis.Obligations.dtimeFormats_eq',
+                  'Dlis.Obligations.sets_eq', 'Dlis.Obligations.genericTypes_eq'],
         rule='random valid specifications (1..3 logical files, all 21 object types, attribute subsets none/30%/60%/all, '
              'value domains per attribute kind incl. non-finite floats, signed zero, long text, aware/naive/string '
              'date-times, enum members and values, references, multiplicities 0..200, nested lists, units; routes '
@@ -20,7 +23,10 @@ CFG = {
              'numeric / date / enum / non-ASCII / long strings, datetimes naive and aware, items of the right and of '
              'other types, enum members, None, object(), lists/tuples nested to depth 3), in and outside '
              'high-compatibility mode: outcome of each call, held value, units, representation code, count and the '
-             'attribute component bytes are compared with the Lean converter model.',
+             'attribute component bytes are compared with the Lean converter model. Stream `defaults`: parameters, computations, '
+             'calibration measurements / coefficients and channels with consistent and inconsistent values / zones / '
+             'dimension / axis / element limit combinations: outcome and result of _run_checks_and_set_defaults and '
+             '_set_dimension_from_data vs Model/Defaults.lean, oracle: nothing assigned is replaced.',
         note='state->file is proved (decode_attr_fidelity); user input->state is the converter model '
              '(assigned_held_exactly / assigned_held_leafwise / numeric_value_kept / ...), instantiated from the pinned '
              'table Standard.convs (Obligations.convs_eq) and compared with the real setters by the convert stream; '
@@ -73,6 +79,8 @@ def run_prop(prop, tier):
         from harness.common import rng
         from harness.filegen import ATTRS
         convert.run_stream(chk, model, bres, rng('C05', 'convert'), 12 if tier == 'quick' else 80, ATTRS)
+        from harness import defaults
+        defaults.run_stream(chk, model, bres, rng('C05', 'defaults'), 600 if tier == 'quick' else 6000)
     else:
         wf.iflr_correspondence(runs, model, bres, chk)
     for r in runs:
